@@ -20,6 +20,7 @@ import (
 	"time"
 
 	gcmn "github.com/dappledger/AnnChain/gemmill/modules/go-common"
+	"github.com/dappledger/AnnChain/gemmill/utils/verifhook"
 )
 
 /* AutoFile usage
@@ -109,6 +110,7 @@ func (af *AutoFile) Write(b []byte) (n int, err error) {
 		}
 	}
 
+	verifhook.PointPath("autofile", af.Path)
 	n, err = af.file.Write(b)
 	return
 }
